@@ -407,8 +407,10 @@ pub fn script_grammar(tier: Tier) -> Vec<T> {
 /// types R for which the probe table has `fn(R)` / `fn() -> R`
 pub fn probe_grammar(tier: Tier) -> Vec<T> {
     let mut v = g1();
-    if tier == Tier::Thorough {
-        v.extend(g2p());
+    match tier {
+        // the unary-unary part of g2p
+        Tier::Quick => v.extend(g2p().into_iter().take(24)),
+        Tier::Thorough => v.extend(g2p()),
     }
     dedup(v)
 }
